@@ -222,7 +222,7 @@ func mustDeref(t types.Type) types.Type {
 // path without running target defers.
 func isAbort(p interface{}) bool {
 	switch p.(type) {
-	case pathAbort, engineError, threadKill:
+	case pathAbort, engineError, threadKill, childPanic:
 		return true
 	}
 	return false
@@ -287,6 +287,11 @@ func visitInstr(fr *frame, instr ssa.Instruction) continuation {
 		// no-op
 
 	case *ssa.UnOp:
+		if fr.i.sched != nil && instr.Op == token.MUL {
+			if p, ok := fr.get(instr.X).(*value); ok && p != nil {
+				fr.i.sched.access(fr, p, false)
+			}
+		}
 		fr.set(instr, unop(fr, instr, fr.get(instr.X)))
 
 	case *ssa.BinOp:
@@ -342,6 +347,11 @@ func visitInstr(fr *frame, instr ssa.Instruction) continuation {
 		chanSend(fr, fr.get(instr.Chan), fr.get(instr.X))
 
 	case *ssa.Store:
+		if fr.i.sched != nil {
+			if p, ok := fr.get(instr.Addr).(*value); ok && p != nil {
+				fr.i.sched.access(fr, p, true)
+			}
+		}
 		store(mustDeref(instr.Addr.Type()), derefPtr(fr.get(instr.Addr), "Store"), fr.get(instr.Val))
 
 	case *ssa.If:
@@ -462,6 +472,11 @@ func visitInstr(fr *frame, instr ssa.Instruction) continuation {
 		}
 
 	case *ssa.Lookup:
+		if fr.i.sched != nil {
+			if m, ok := fr.get(instr.X).(*amap); ok && m != nil {
+				fr.i.sched.access(fr, m, false)
+			}
+		}
 		fr.set(instr, lookup(fr, instr, fr.get(instr.X), fr.get(instr.Index)))
 
 	case *ssa.MapUpdate:
@@ -471,6 +486,9 @@ func visitInstr(fr *frame, instr ssa.Instruction) continuation {
 		}
 		if m == nil {
 			panic(runtimePanic{"assignment to entry in nil map"})
+		}
+		if fr.i.sched != nil {
+			fr.i.sched.access(fr, m, true)
 		}
 		m.insert(fr, fr.get(instr.Key), fr.get(instr.Value))
 
